@@ -1,5 +1,6 @@
 import HdVerif.Model.Tiling
 import HdVerif.Proofs.RatFloor
+import HdVerif.Proofs.TilingStd
 /-! Helper lemmas for C04 / C12 (tiled images).  The property theorems are in `Props/C04.lean`, `Props/C12.lean`. -/
 namespace HdVerif.TilingLemmas
 open HdVerif HdVerif.Gen HdVerif.Tiling
@@ -155,5 +156,84 @@ theorem copyLoop_spec {α} (M : Img α) (frames : List (Img α)) (r0 r1 c0 c1 th
         rw [hs2 hrest]
         have hnr : ¬ covers r0 c0 th tw r i j := fun h => hno ⟨r, by simp, h⟩
         rw [if_neg (by intro h; exact hnr h.2.2.2.2)]
+
+/-! ## Region reads -/
+
+/-- frame `fr` holds the part of the `R × C` matrix `M` (0-based) under the tile at 1-based `(rp, cp)`;
+what lies outside the matrix (padding of edge tiles) is unconstrained -/
+def FrameCutFrom {α} (M : Img α) (R C th tw : Int) (rp cp : Int) (fr : Img α) : Prop :=
+  ∀ a b, 0 ≤ a → a < th → 0 ≤ b → b < tw → rp - 1 + a < R → cp - 1 + b < C → fr a b = M (rp - 1 + a) (cp - 1 + b)
+
+/-- every row of the table points to a stored frame that was cut from `M` at the row's position -/
+def TableCutFrom {α} (M : Img α) (R C th tw : Int) (lut : List LutRow) (frames : List (Img α)) : Prop :=
+  ∀ r ∈ lut, ∃ fr, frames[r.fi]? = some fr ∧ FrameCutFrom M R C th tw r.rp r.cp fr
+
+/-- a 1-based matrix pixel `(gr, gc)` lies in the tile of row `r` -/
+def inTile (th tw : Int) (r : LutRow) (gr gc : Int) : Prop :=
+  r.rp ≤ gr ∧ gr < r.rp + th ∧ r.cp ≤ gc ∧ gc < r.cp + tw
+
+theorem mem_sel_iff (rows : List LutRow) (r0 r1 c0 c1 th tw : Int) (r : LutRow) :
+    r ∈ (rows.filter (selected r0 r1 c0 c1 th tw)).mergeSort lutLe ↔ r ∈ rows ∧ selected r0 r1 c0 c1 th tw r = true := by
+  rw [List.mem_mergeSort, List.mem_filter]
+
+/-- **General region read.**  For a table whose frames were cut from `M`, any accepted request with
+`start ≤ end` on both axes (numpy refuses negative shapes) and no missing-frame test
+(`allow_missing_combinations`, TILED_FULL, or the count of selected frames is the expected one) is answered; the output has the requested shape; every pixel
+covered by some tile of the channel holds the matrix value, every other pixel is zero. -/
+theorem readRegion_general {α} (z : α) (M : Img α) (lut : List LutRow) (frames : List (Img α)) (R C th tw : Int)
+    (chan : Option Int) (rs re cs ce : Option Int) (asIdx full allowMissing : Bool)
+    (ht : 1 ≤ th) (hw : 1 ≤ tw)
+    (hu : uniqueKey chan lut = true)
+    (hcut : TableCutFrom M R C th tw (chanRows chan lut) frames)
+    (r0 r1 c0 c1 : Int) (hstd : stdRowColIndices rs re cs ce R C asIdx false = .ok (r0, r1, c0, c1))
+    (hmiss : allowMissing = true ∨ full = true ∨
+      (((chanRows chan lut).filter (selected r0 r1 c0 c1 th tw)).length : Int) =
+        (Int.fdiv (r1 - 2) th - Int.fdiv (r0 - 1) th + 1) * (Int.fdiv (c1 - 2) tw - Int.fdiv (c0 - 1) tw + 1))
+    (hr : r0 ≤ r1) (hc : c0 ≤ c1) :
+    ∃ out, readRegion z lut frames R C th tw chan rs re cs ce asIdx full allowMissing = .ok (r1 - r0, c1 - c0, out) ∧
+      ∀ i j, 0 ≤ i → i < r1 - r0 → 0 ≤ j → j < c1 - c0 →
+        ((∃ r ∈ chanRows chan lut, inTile th tw r (r0 + i) (c0 + j)) → out i j = M (r0 - 1 + i) (c0 - 1 + j)) ∧
+        ((¬ ∃ r ∈ chanRows chan lut, inTile th tw r (r0 + i) (c0 + j)) → out i j = z) := by
+  obtain ⟨g1, g2, g3, g4, g5, g6, g7, g8⟩ := stdRowCol_range_num hstd
+  have hspec := copyLoop_spec M frames r0 r1 c0 c1 th tw ht hw hr hc
+    (((chanRows chan lut).filter (selected r0 r1 c0 c1 th tw)).mergeSort lutLe)
+    (fun r hrm => ((mem_sel_iff _ _ _ _ _ _ _ r).mp hrm).2)
+    (fun r hrm => by
+      obtain ⟨fr, hfr, hcf⟩ := hcut r ((mem_sel_iff _ _ _ _ _ _ _ r).mp hrm).1
+      refine ⟨fr, hfr, ?_⟩
+      intro i j hi0 hi1 hj0 hj1 hcov
+      unfold covers at hcov
+      have := hcf (r0 + i - r.rp) (c0 + j - r.cp) (by omega) (by omega) (by omega) (by omega) (by omega) (by omega)
+      rw [this]
+      congr 1 <;> omega)
+    (fun _ _ => z)
+  obtain ⟨out, hout, hpix⟩ := hspec
+  refine ⟨out, ?_, ?_⟩
+  · unfold readRegion
+    rw [hu, hstd]
+    simp only [Bool.not_true, Bool.false_eq_true, if_false, expectedCount_eq]
+    have hm : (!allowMissing && !full && decide (((((chanRows chan lut).filter (selected r0 r1 c0 c1 th tw)).mergeSort lutLe).length : Int) ≠
+        (Int.fdiv (r1 - 2) th - Int.fdiv (r0 - 1) th + 1) * (Int.fdiv (c1 - 2) tw - Int.fdiv (c0 - 1) tw + 1))) = false := by
+      rcases hmiss with h | h | h
+      · simp [h]
+      · simp [h]
+      · rw [List.length_mergeSort, h]; simp
+    rw [hm]
+    simp only [Bool.false_eq_true, if_false]
+    rw [if_neg (by omega), hout]
+  · intro i j hi0 hi1 hj0 hj1
+    obtain ⟨h1, h2⟩ := hpix i j hi0 hi1 hj0 hj1
+    constructor
+    · rintro ⟨r, hrm, hin⟩
+      unfold inTile at hin
+      have hsel : selected r0 r1 c0 c1 th tw r = true := by
+        rw [selected_iff]; omega
+      have := h1 ⟨r, (mem_sel_iff _ _ _ _ _ _ _ r).mpr ⟨hrm, hsel⟩, by unfold covers; omega⟩
+      rw [this]
+      congr 1 <;> omega
+    · intro hno
+      apply h2
+      rintro ⟨r, hrm, hcov⟩
+      exact hno ⟨r, ((mem_sel_iff _ _ _ _ _ _ _ r).mp hrm).1, by unfold covers at hcov; unfold inTile; omega⟩
 
 end HdVerif.TilingLemmas
